@@ -226,8 +226,10 @@ Step ==
                 \* knows RCV.NXT only as the acknowledged / accepted frontier, either of which is allowed)
                 \* (a reset is judged by its sequence number alone: payload that reaches into the window does not help one
                 \*  that starts below every RCV.NXT the socket can have)
+                \* (RCV.NXT lies one beyond the peer's FIN once that has been taken in order, also before any ACK says so)
+                nxt2 == IF fin2 # -1 /\ pre2 >= fin2 - 1 THEN fin2 + 1 ELSE pre2 + 1
                 rstOK == good /\ g.rst /\ g.seq >= lastAckEm[e]
-                         /\ (g.seq < Max(advEdge[e], pre2 + 1) \/ g.seq = pre2 + 1 \/ g.seq = lastAckEm[e])
+                         /\ (g.seq < Max(advEdge[e], nxt2) \/ g.seq = nxt2 \/ g.seq = pre2 + 1 \/ g.seq = lastAckEm[e])
                 \* what e learns as a sender from g
                 shp == IF g.syn THEN 0 ELSE Shift(p)
                 learn == good /\ g.ha /\ ~g.rst
@@ -249,8 +251,14 @@ Step ==
                 ce2 == IF newConn THEN 0 ELSE IF certain THEN newE ELSE IF learn /\ curEdge[e] > 0 THEN Max(curEdge[e], newE) ELSE curEdge[e]
                 meJ == IF ce2 > 0 THEN ce2 ELSE me2
                 ov == OutsViol(e, r.out, pre2, fin2, IF newConn THEN 0 ELSE maxSent[e], r.post.rq, sw2, [me |-> meJ, zr |-> zr2, mss |-> mss2, mar |-> mar2])
+                \* (the poll that delivers g runs the egress pass too: a timer that was due at that instant may end TIME-WAIT --
+                \*  not before its 10 s -- or time the connection out, exactly as in a poll without a frame)
+                timerDue == "dl" \in DOMAIN r /\ r.dl # -1 /\ r.dl <= r.now
+                byTimer == timerDue /\ EdgeOK(e, r.before, r.post.st, "egress", g, "", FALSE, FALSE, FALSE, r.now)
+                           /\ (r.before # "TIME-WAIT" \/ twEntry[e] < 0 \/ r.now >= twEntry[e] + 10000)
                 tv == IF ~IsTcp(g) THEN <<>>
                       ELSE IF EdgeOK(e, r.before, r.post.st, "rx", g, "", finInOrder, ackOfFin, rstOK, r.now) THEN <<>>
+                      ELSE IF byTimer THEN <<>>
                       ELSE IF g.rst THEN << <<l, "T3", e, r.before, r.post.st, g.seq, lastAckEm[e], advEdge[e]>> >>
                       ELSE << <<l, "T1", e, r.before, r.post.st, IF g.syn THEN "syn" ELSE IF g.fin THEN "fin" ELSE "seg", g.seq, IF g.ha THEN g.ack ELSE -1>> >>
                 \* a segment whose checksum does not verify has no effect (frames are only judged when no timer was due)
